@@ -131,6 +131,8 @@ def run_check(prop, tier, seed, t0):
     if hits:
         raise lib.HarnessError('banned construct in Lean sources: %s' % hits[:5])
     theorems = lib.theorems_of(prop.LEAN_FILE, prop.NAMESPACE)
+    for mf in getattr(prop, 'MORE_LEAN_FILES', []):      # further property-theorem files of the same namespace
+        theorems += lib.theorems_of(mf, prop.NAMESPACE)
     lemma_count = 0
     for f in getattr(prop, 'LEMMA_FILES', []):
         lemma_count += len(lib.theorems_of(f, 'X'))
